@@ -27,6 +27,7 @@ from __future__ import annotations
 
 import ast
 import difflib
+import re
 import os
 import textwrap
 
@@ -201,14 +202,18 @@ def effects(fa, rename=None, keep_calls=True, drop_guards=()):
             continue
         # a guard is one term: the condition, or its normalised negation - so that
         # `if not c: A else: B` and `if c: B else: A` give the same guard sets
+        # Guards whose other arm raises are kept apart (flag 'r'): the first, syntactic comparison
+        # ignores them (an effect is compared under the conditions that let the function go on); the
+        # case-split comparison of what is left uses the complete path condition.
         gl = []
-        for (c, pol) in e.cguards:
+        for (c, pol), raw in zip(e.guards, e.graw):
             if any((d(c) if callable(d) else T.contains(c, d)) for d in drop_guards):
                 continue
             g = r(c) if pol else T.not_(r(c))
+            flag = 'r' if raw in ('raise', 'if:raise') else True
             # `if a and b:` and `if a: if b:` give the same guards
-            gl.extend(g[1] if g[0] == 'and' else [g])
-        gs = frozenset((g, True) for g in gl)
+            gl.extend((x, flag) for x in (g[1] if g[0] == 'and' else [g]))
+        gs = frozenset(gl)
         out.append((p, gs, e))
     return out
 
@@ -240,11 +245,31 @@ def _sh(x):
     return T.show(x)
 
 
+_LOOP_RE = re.compile(r'^(L[0-9a-f]{5})~[0-9a-f]{3}((?:#\d+)?)$')
+
+
+def _strip_loop_hash(x):
+    """Loop ids carry a hash of the conditions the loop runs under (to tell equal loops in the two
+    arms of a conditional apart); for the comparison the conditions are in the guards already."""
+    if isinstance(x, str):
+        m = _LOOP_RE.match(x)
+        return m.group(1) + m.group(2) if m else x
+    if isinstance(x, tuple):
+        return tuple(_strip_loop_hash(y) for y in x)
+    if isinstance(x, frozenset):
+        return frozenset(_strip_loop_hash(y) for y in x)
+    return x
+
+
+def _go_on(gs):
+    return frozenset(x for x in gs if x[1] != 'r')
+
+
 def _show_effect(p, gs):
     parts = []
     for x in p[1:]:
         parts.append(_sh(x) if isinstance(x, tuple) else str(x))
-    g = ' & '.join(sorted(('' if pol else 'not ') + _sh(c) for c, pol in gs))
+    g = ' & '.join(sorted(_sh(c) for c, pol in gs if pol != 'r'))
     s = f'{p[0]} ' + ' , '.join(parts)
     return s + (f'   [when {g}]' if g else '')
 
@@ -276,6 +301,8 @@ def compare(ctx, rule, fa, ref_source, module=None, known=(), ignore=None, why='
     _compare_defaults(ctx, rule, fa, ref, positional_params, why)
     got = effects(fa, rename, drop_guards=drop_guards)
     want = effects(ref, drop_guards=drop_guards)
+    got = [(_strip_loop_hash(p), _strip_loop_hash(gs), e) for p, gs, e in got]
+    want = [(_strip_loop_hash(p), _strip_loop_hash(gs), e) for p, gs, e in want]
     got, want = _inline_one_sided(ctx, got, want)
     got, want = _renumber_objects(got), _renumber_objects(want)
     if normalize is not None:
@@ -302,7 +329,7 @@ def compare(ctx, rule, fa, ref_source, module=None, known=(), ignore=None, why='
     for p, gs, e in got:
         hit = None
         for i, (q, hs, _) in enumerate(remaining):
-            if p == q and gs == hs:
+            if p == q and _go_on(gs) == _go_on(hs):
                 hit = i
                 break
         if hit is None:
@@ -312,6 +339,14 @@ def compare(ctx, rule, fa, ref_source, module=None, known=(), ignore=None, why='
             n_ok += 1
             ctx.ok(rule, f'{p[0]}#{n_ok}', ctx.where(fa, e), found=_show_effect(p, gs), expected='same effect in the reference model',
                    reason=why)
+    # leftovers: compare in case-split normal form (conditional expressions lifted into path
+    # conditions, then equality of the guarded commands as boolean functions of the tests)
+    if extra and remaining:
+        n_before = len(extra)
+        extra, remaining = _semantic_match(extra, remaining)
+        if n_before != len(extra):
+            ctx.ok(rule, 'case-split', ctx.where(fa), found=f'{n_before - len(extra)} effect(s) written with conditionals in another place',
+                   expected='same guarded effects after lifting conditional expressions into path conditions', reason=why)
     # pair up the leftovers by similarity for diagnosis
     used = set()
     k = 0
@@ -337,6 +372,255 @@ def compare(ctx, rule, fa, ref_source, module=None, known=(), ignore=None, why='
         _report(ctx, rule, fa, None, None, _show_effect(q, hs), known, why, f'missing-effect#{k}')
     _ABBREV.clear()
     return ref
+
+
+# ---------------------------------------------------------------------------
+# case-split normal form
+
+_NEG_OPS = ('!=', '<=', 'notin', 'isnot')
+_NEVER_NONE = ('cmp', 'band', 'bor', 'inv', 'add', 'mul', 'div', 'floordiv', 'ceildiv', 'list', 'tuple', 'dict', 'set', 'comp',
+               'concat', 'cat', 'ss', 'and', 'or', 'not')
+
+
+def _is_neg(g):
+    return g[0] in ('not', 'or') or (g[0] == 'cmp' and g[1] in _NEG_OPS)
+
+
+def _fold(g):
+    """Constant value of a test, if it has one."""
+    if g[0] == 'c' and isinstance(g[1], bool):
+        return g[1]
+    if g[0] == 'cmp' and g[1] in ('is', 'isnot'):
+        a, b = g[2], g[3]
+        if a[0] == 'c' and b[0] == 'c':
+            return (a[1] is b[1]) == (g[1] == 'is')
+        for x, y in ((a, b), (b, a)):
+            if y == T.NONE and (x[0] in _NEVER_NONE or (x[0] == 'c' and x[1] is not None) or _is_alloc(x)):
+                return g[1] == 'isnot'
+    return None
+
+
+def _implied(c, G):
+    if c in G:
+        return True
+    n = T.not_(c)
+    if n in G:
+        return False
+    v = _fold(c)
+    if v is not None:
+        return v
+    if c[0] == 'and':
+        vals = [_implied(x, G) for x in c[1]]
+        if any(v is False for v in vals):
+            return False
+        if all(v is True for v in vals):
+            return True
+    if c[0] == 'or':
+        vals = [_implied(x, G) for x in c[1]]
+        if any(v is True for v in vals):
+            return True
+        if all(v is False for v in vals):
+            return False
+    return None
+
+
+def _simp(g, G):
+    """Simplify a test under the tests G known to hold: -> True / False / simplified term."""
+    v = _implied(g, G) if g[0] not in ('and', 'or') else None
+    if v is not None:
+        return v
+    if g[0] in ('and', 'or'):
+        unit = g[0] == 'and'
+        parts = []
+        for x in g[1]:
+            s = _simp(x, G)
+            if s is (not unit):
+                return not unit
+            if s is unit:
+                continue
+            parts.append(s)
+        if not parts:
+            return unit
+        return parts[0] if len(parts) == 1 else T.nary(g[0], tuple(parts))
+    if g[0] == 'not':
+        s = _simp(g[1], G)
+        if s is True or s is False:
+            return not s
+        return T.not_(s)
+    return g
+
+
+def _atoms(g, out):
+    if g[0] in ('and', 'or'):
+        for x in g[1]:
+            _atoms(x, out)
+    elif g[0] == 'not':
+        _atoms(g[1], out)
+    elif _is_neg(g):
+        _atoms(T.not_(g), out)
+    else:
+        out.add(g)
+
+
+def _eval(g, val):
+    if g[0] == 'and':
+        return all(_eval(x, val) for x in g[1])
+    if g[0] == 'or':
+        return any(_eval(x, val) for x in g[1])
+    if g[0] == 'not':
+        return not _eval(g[1], val)
+    if _is_neg(g):
+        return not _eval(T.not_(g), val)
+    return val[g]
+
+
+def _has_bound(t):
+    return any(isinstance(x, tuple) and x and x[0] in ('bv', 'lam') for x in T.walk(t))
+
+
+def _simplify_under(p, G):
+    """Resolve conditional sub-terms decided by the guards; fold constant guards. -> (p, G, feasible)"""
+    for _ in range(6):
+        flat = set()
+        for g in G:
+            for x in (g[1] if g[0] == 'and' else (g,)):
+                flat.add(x)
+        G2 = set()
+        for g in flat:
+            v = _fold(g)
+            if v is True:
+                continue
+            if v is False:
+                return p, frozenset(), False
+            G2.add(g)
+        for g in G2:
+            if T.not_(g) in G2:
+                return p, frozenset(), False
+
+        def f(x, ctxG):
+            if x[0] == 'ite':
+                v = _implied(x[1], ctxG)
+                if v is True:
+                    return x[2]
+                if v is False:
+                    return x[3]
+            return None
+        p2 = tuple(T.transform(x, lambda y: f(y, G2)) if isinstance(x, tuple) and T.is_term(x) else x for x in p)
+        G3 = set()
+        for g in G2:
+            others = G2 - {g}
+            g2 = T.transform(g, lambda y: f(y, others))
+            # a guard that the others decide, or parts of it
+            g2 = _simp(g2, others)
+            if g2 is True:
+                continue
+            if g2 is False:
+                return p, frozenset(), False
+            G3.add(g2)
+        G3 = frozenset(G3)
+        if p2 == p and G3 == frozenset(G):
+            return p2, G3, True
+        p, G = p2, G3
+    return p, frozenset(G), True
+
+
+def _pick_cond(p, G):
+    best = None
+    for t in [x for x in p if isinstance(x, tuple) and T.is_term(x)] + list(G):
+        for x in T.walk(t):
+            if isinstance(x, tuple) and x and x[0] == 'ite' and not _has_bound(x[1]):
+                k = repr(x[1])
+                if best is None or k < best[0]:
+                    best = (k, x[1])
+    return best[1] if best else None
+
+
+def _lift_one(p, G, limit=128):
+    work = [(p, frozenset(G))]
+    out = []
+    while work:
+        p, G = work.pop()
+        p, G, ok = _simplify_under(p, G)
+        if not ok:
+            continue
+        c = _pick_cond(p, G)
+        if c is None or len(out) + len(work) >= limit:
+            out.append((p, G))
+            continue
+        work.append((p, G | {c}))
+        work.append((p, G | {T.not_(c)}))
+    return out
+
+
+def _noop(p):
+    """x.update({}) / x.extend([]) do nothing."""
+    if p[0] == 'call' and isinstance(p[1], tuple) and p[1][0] == 'call' and p[1][1][0] == 'attr' \
+            and p[1][1][2] in ('update', 'extend') and len(p[1][2]) == 1 and not p[1][3] and _is_alloc(p[1][2][0]) \
+            and p[1][2][0][1][1].startswith('$new_'):
+        return True
+    return False
+
+
+def _semantic_match(extra, remaining):
+    """Remove from both lists the effects that agree once conditional expressions are lifted into
+    path conditions: per payload, the number of active instances must be the same under every truth
+    assignment of the tests involved."""
+    import itertools
+
+    def lifted(lst, side):
+        out = []
+        for i, (p, gs, e) in enumerate(lst):
+            for p2, G in _lift_one(p, {c for c, _ in gs}):
+                if not _noop(p2):
+                    out.append((p2, G, i))
+        return out
+    F = lifted(extra, 'f')
+    W = lifted(remaining, 'w')
+    groups = {}
+    for p, G, i in F:
+        groups.setdefault(p, ([], []))[0].append((G, i))
+    for p, G, i in W:
+        groups.setdefault(p, ([], []))[1].append((G, i))
+    bad_f, bad_w = set(), set()
+    for p, (fs, ws) in groups.items():
+        atoms = set()
+        for G, _ in fs + ws:
+            for g in G:
+                _atoms(g, atoms)
+        atoms = sorted(atoms, key=repr)
+        # tests of one subject against distinct constants (x == 'a', x == 'b', x is None) exclude each other
+        excl = {}
+        for a in atoms:
+            if a[0] == 'cmp' and a[1] in ('==', 'is'):
+                for subj, const in ((a[2], a[3]), (a[3], a[2])):
+                    if const[0] == 'c' and subj[0] != 'c':
+                        excl.setdefault(subj, []).append((a, const))
+        excl = [v for v in excl.values() if len(v) > 1 and len({repr(c) for _, c in v}) == len(v)]
+        same = False
+        if len(atoms) <= 14:
+            same = True
+            for bits in itertools.product((False, True), repeat=len(atoms)):
+                val = dict(zip(atoms, bits))
+                if any(sum(1 for a, _ in grp if val[a]) > 1 for grp in excl):
+                    continue
+
+                def holds(G):
+                    return all(_eval(g, val) for g in G)
+                if sum(1 for G, _ in fs if holds(G)) != sum(1 for G, _ in ws if holds(G)):
+                    same = False
+                    break
+        else:
+            same = sorted(repr(sorted(map(repr, G))) for G, _ in fs) == sorted(repr(sorted(map(repr, G))) for G, _ in ws)
+        if not same:
+            if os.environ.get('VERIF_DEBUG_LIFT'):
+                print('UNMATCHED GROUP', ' '.join(T.show(x)[:200] if isinstance(x, tuple) and T.is_term(x) else str(x) for x in p))
+                for G, _ in fs:
+                    print('     found  when', ' & '.join(sorted(T.show(g)[:120] for g in G)))
+                for G, _ in ws:
+                    print('     wanted when', ' & '.join(sorted(T.show(g)[:120] for g in G)))
+            bad_f.update(i for _, i in fs)
+            bad_w.update(i for _, i in ws)
+    return [x for i, x in enumerate(extra) if i in bad_f], [x for i, x in enumerate(remaining) if i in bad_w]
 
 
 # ---------------------------------------------------------------------------
